@@ -237,11 +237,14 @@ def classify (msg : String) : Option String :=
   if has "overlap" || has "not executing the loop" || has "while the loop is stopped" then some "C03"
   else if has "RunOnLoop" || has "is not the one that is due (fn" || has "not due: fn" || has "did not run" || has "queue entry was skipped" then some "C04"
   else if has "early" || has "runs twice" || has "cleared before" || has "another job's callback" || has "fires twice" || has "not due: timeout" || has "not due: interval" || has "not due: immediate" then some "C05"
-  else if has "mismatch in [jobCount" || has ",jobCount" || has "mismatch in [jobs" then some "C06"
+  else if (has "mismatch in [jobCount" || has ",jobCount" || has "mismatch in [jobs") then
+    -- wrong accounting seen inside or after Terminate also contradicts "leaves nothing behind / fresh after restart"
+    (if has "terminated := true" || has " term." then some "C06+C08" else some "C06")
   else if has "mismatch in [auxJobs" || has "mismatch in [token" then some "C04"
   else if has "mismatch in [canRun" || has "mismatch in [running" then some "C07"
   else if has "mismatch in [terminated" then some "C08"
   else if has "Stop() returned" || has "live-job" || has "live jobs" || has "no live job" then some "C06"
+  else if has "Stop on a running loop" || has "Stop returned from Wait while" then some "C07+C03"
   else if has "Stop " || has "stop." || has "StopNoWait" || has "canRun" then some "C07"
   else if has "Terminate" || has "terminated" || has "refused" then some "C08"
   else none
